@@ -13,6 +13,11 @@ func tbl(dir, name string) gtItem { return gtItem{dir: dir, key: "var:" + name} 
 // cst: a constant of a const block, emitted with its value.
 func cst(dir, name string) gtItem { return gtItem{dir: dir, key: "const:" + name} }
 
+// lits: the constant strings a generator function writes through s.js / s.jsln, in source order
+func lits(dir, key string) gtItem {
+	return gtItem{dir: dir, key: key, cfg: &gtCfg{litsOf: []string{"js", "jsln"}, suffix: "lits"}}
+}
+
 func init() {
 	gtFamily("70-gotrans-lexer-preds", []gtItem{
 		it("parse", "isSpace"),
@@ -88,5 +93,76 @@ func init() {
 	})
 	gtFamily("77-gotrans-checker", []gtItem{
 		it("parsepasses", "contains"),
+	})
+	// soyjs/scope.go: the naming functions of the JavaScript generator, with the receiver's stack and counter as
+	// explicit state (Model/JsGen.v jsc_*)
+	gtFamily("78-gotrans-soyjs-scope", []gtItem{
+		it("soyjs", "scope.push"),
+		it("soyjs", "scope.pop"),
+		it("soyjs", "scope.genname"),
+		it("soyjs", "scope.bind"),
+		it("soyjs", "scope.makevar"),
+		it("soyjs", "scope.lookup"),
+		it("soyjs", "scope.pushForRange"),
+		it("soyjs", "scope.pushForEach"),
+		it("soyjs", "scope.loop"),
+		// the fixed text the generator writes (Model/JsGen.v's t_ constants), function by function
+		lits("soyjs", "state.visitIf"),
+		lits("soyjs", "state.visitForRange"),
+		lits("soyjs", "state.visitForeach"),
+		lits("soyjs", "state.visitLoop"),
+		lits("soyjs", "state.visitNamespace"),
+		lits("soyjs", "state.visitTemplate"),
+		lits("soyjs", "state.visitPrint"),
+		lits("soyjs", "state.visitCall"),
+		lits("soyjs", "state.visitSwitch"),
+		lits("soyjs", "state.visitDataRef"),
+		lits("soyjs", "state.visitFunction"),
+		lits("soyjs", "state.evalMsgParts"),
+		lits("soyjs", "state.walkPlural"),
+		lits("soyjs", "state.op"),
+		lits("soyjs", "state.visitSoyFile"),
+	})
+	// One family per group of properties (bin/check charges an untranslatable shape to the properties whose closure
+	// mentions an identifier of the same family).
+	// soyhtml/scope.go, the loop functions of funcs.go and the hidden loop names of exec.go (Model/Interp.v sc_*, loop_func,
+	// s_index, s_lastindex): C01 C02 C06
+	gtFamily("79-gotrans-soyhtml-scope", []gtItem{
+		it("soyhtml", "scope.push"),
+		it("soyhtml", "scope.pop"),
+		it("soyhtml", "scope.set"),
+		// notifyUnbound is a hook with an empty body in the build under check (scope_hook_off.go); the harness's build
+		// counts unbound lookups through it, which Model/Interp.v's bump_unbound mirrors (tied by the correspondence)
+		{dir: "soyhtml", key: "scope.lookup", cfg: &gtCfg{ignore: []string{"notifyUnbound"}}},
+		it("soyhtml", "scope.alldata"),
+		it("soyhtml", "scope.enter"),
+		it("soyhtml", "funcIndex"),
+		it("soyhtml", "funcIsFirst"),
+		it("soyhtml", "funcIsLast"),
+		{dir: "soyhtml", key: "state.walk", cfg: &gtCfg{initOf: "keyInd", fragVars: [][2]string{{"node", "*ast.ForNode"}}, suffix: "keyInd"}},
+		{dir: "soyhtml", key: "state.walk", cfg: &gtCfg{initOf: "keyLast", fragVars: [][2]string{{"node", "*ast.ForNode"}}, suffix: "keyLast"}},
+	})
+	// template/registry.go: node.Position() of the (immutable) AST node is the parameter m_node_Position: C06 C19
+	gtFamily("80-gotrans-registry", []gtItem{
+		it("template", "Registry.LineNumber"),
+		it("template", "Registry.ColNumber"),
+		it("template", "Registry.Filename"),
+	})
+	// soyhtml/directives.go: value.String() of the printed value is val_string; the rune-boundary loop runs at most
+	// maxLen+1 times: C06 C16
+	gtFamily("81-gotrans-directives", []gtItem{
+		{dir: "soyhtml", key: "directiveTruncate", cfg: &gtCfg{fuel: map[int]string{1: "maxLen + 2"}}},
+	})
+	// soymsg: tagName, the html placeholder name, hash32 with its block loop (fuel: one iteration per 12 bytes of
+	// limit-start, stated generously); lemmas in Proofs/MsgIdSourceTie.v (C10 C11)
+	// parse/quote.go unquoteString: the error result is "err != nil", utf8.DecodeRuneInString, strconv.ParseInt and
+	// string([]rune) are parameters; every iteration consumes at least one byte (fuel len(s)+1): C01 C05 C17
+	gtFamily("83-gotrans-quote", []gtItem{
+		{dir: "parse", key: "unquoteString", cfg: &gtCfg{fuel: map[int]string{1: "len(s) + 1"}}},
+	})
+	gtFamily("82-gotrans-soymsg-loops", []gtItem{
+		it("soymsg", "tagName"),
+		{dir: "soymsg", key: "genBasePlaceholderNameFromHtml", cfg: &gtCfg{abstract: []string{"toUpperUnderscore"}}},
+		{dir: "soymsg", key: "hash32", cfg: &gtCfg{fuel: map[int]string{1: "limit - start + 1"}}},
 	})
 }
